@@ -552,7 +552,8 @@ class AnsiString:
                 ret_val = 0
             return ret_val
         else:
-            return val
+            # Like str slicing, values past the end refer to the end
+            return min(val, len(self._s))
 
     def __getitem__(self, val:Union[int, slice]) -> 'AnsiString':
         '''
